@@ -30,6 +30,13 @@ def table_ints(facts, qname):
     return vals
 
 
+def scalar_const(facts, q):
+    t = facts.table(q.replace('xalanc_1_12::', ''), must=False)
+    if t is not None and isinstance(t['val'], int):
+        return t['val']
+    return None
+
+
 def predicates(facts, functor):
     """evaluate the five predicates of CharFunctor1_x for every code unit 0..0x2FF by interpreting their ASTs"""
     tabs = {}
@@ -45,7 +52,7 @@ def predicates(facts, functor):
         a = asts[0]
         vals = []
         for c in range(0x300):
-            ev = Evaluator({a['params'][0]['id']: c}, tables)
+            ev = Evaluator({a['params'][0]['id']: c}, tables, consts=lambda q: scalar_const(facts, q))
             try:
                 vals.append(bool(ev.run(a['body'])))
             except Unsupported as u:
